@@ -21,6 +21,7 @@ import (
 	"go/constant"
 	"go/token"
 	"go/types"
+	"sort"
 	"strings"
 )
 
@@ -34,6 +35,9 @@ type itr struct {
 	structs map[string]bool // struct types translated in this module
 	opaque  map[string]bool // struct types kept opaque (fields no translated method touches)
 	maskNS  string          // namespace of the regenerated Mask methods
+	externs map[string]string // "T.m" of methods kept uninterpreted -> Lean type of the function parameter
+	needExt map[string][]string // translated function -> extern parameters it takes
+	extOwner map[string]string  // extern parameter name -> "T.m"
 }
 
 func (t *itr) fail(format string, a ...interface{}) string {
@@ -109,6 +113,8 @@ func (t *itr) leanType(tp types.Type) string {
 		return t.leanType(u.Underlying())
 	case *types.Pointer:
 		return t.leanType(u.Elem())
+	case *types.Map:
+		return "GoMap (" + t.leanType(u.Key()) + ") (" + t.leanType(u.Elem()) + ")"
 	case *types.Slice:
 		return "GoSlice (" + t.leanType(u.Elem()) + ")"
 	case *types.Array:
@@ -155,15 +161,22 @@ func (t *itr) natOf(e ast.Expr, pre *[]string) string {
 }
 
 func isSliceT(tp types.Type) bool { _, ok := tp.Underlying().(*types.Slice); return ok }
+func isMapT(tp types.Type) bool   { _, ok := tp.Underlying().(*types.Map); return ok }
 func isArrayT(tp types.Type) bool { _, ok := tp.Underlying().(*types.Array); return ok }
 
 func (t *itr) getFn(tp types.Type) string {
+	if isMapT(tp) {
+		return "GoMap.get"
+	}
 	if isSliceT(tp) {
 		return "GoSlice.get"
 	}
 	return "GoArr.get"
 }
 func (t *itr) setFn(tp types.Type) string {
+	if isMapT(tp) {
+		return "GoMap.set"
+	}
 	if isSliceT(tp) {
 		return "GoSlice.set"
 	}
@@ -197,6 +210,9 @@ func (t *itr) expr(e ast.Expr, pre *[]string) string {
 		}
 		return "(" + t.expr(x.X, pre) + ")." + x.Sel.Name
 	case *ast.IndexExpr:
+		if isMapT(t.typeOf(x.X)) {
+			return fmt.Sprintf("((GoMap.find %s %s).getD default)", t.expr(x.X, pre), t.expr(x.Index, pre))
+		}
 		base := t.expr(x.X, pre)
 		idx := t.natOf(x.Index, pre)
 		v := t.tmp("t")
@@ -304,6 +320,15 @@ func (t *itr) expr(e ast.Expr, pre *[]string) string {
 		return t.fail("unsupported binary operator %s on %s", x.Op, tp)
 	case *ast.CompositeLit:
 		tp := t.typeOf(x)
+		if n, ok := tp.(*types.Named); ok && (n.Obj().Name() == "ID" || n.Obj().Name() == "ResID") && len(x.Elts) == 1 {
+			if kv, ok := x.Elts[0].(*ast.KeyValueExpr); ok {
+				return t.expr(kv.Value, pre)
+			}
+			return t.expr(x.Elts[0], pre)
+		}
+		if (isSliceT(tp) || isMapT(tp)) && len(x.Elts) == 0 {
+			return fmt.Sprintf("(default : %s)", t.leanType(tp)) // empty (identified with nil)
+		}
 		st, ok := tp.Underlying().(*types.Struct)
 		if !ok {
 			return t.fail("unsupported composite literal of type %s", tp)
@@ -379,6 +404,9 @@ func (t *itr) call(x *ast.CallExpr, pre *[]string, wantValue bool) string {
 	if id, ok := x.Fun.(*ast.Ident); ok {
 		switch id.Name {
 		case "len":
+			if isMapT(t.typeOf(x.Args[0])) {
+				return fmt.Sprintf("(((%s).len : Nat) : Int)", t.expr(x.Args[0], pre))
+			}
 			return fmt.Sprintf("(((%s).size : Nat) : Int)", t.expr(x.Args[0], pre))
 		case "cap":
 			if isSliceT(t.typeOf(x.Args[0])) {
@@ -452,6 +480,10 @@ func (t *itr) call(x *ast.CallExpr, pre *[]string, wantValue bool) string {
 		}
 		return callS
 	}
+	if _, isExt := t.externs[tn+"."+sel.Sel.Name]; isExt {
+		// an uninterpreted function of its arguments (not of the receiver's state)
+		return fmt.Sprintf("(%s %s)", sel.Sel.Name+"F", strings.Join(args, " "))
+	}
 	if !t.structs[tn] {
 		return t.fail("method call on a type outside this module: %s", tn)
 	}
@@ -460,7 +492,11 @@ func (t *itr) call(x *ast.CallExpr, pre *[]string, wantValue bool) string {
 		return t.fail("unknown method %s.%s", tn, sel.Sel.Name)
 	}
 	hasRes := fd.Type.Results != nil && len(fd.Type.Results.List) > 0
-	callS := fmt.Sprintf("%s.%s %s %s", tn, sel.Sel.Name, recvVal, strings.Join(args, " "))
+	extArgs := ""
+	for _, e := range t.needExt[tn+"."+sel.Sel.Name] {
+		extArgs += " " + e
+	}
+	callS := fmt.Sprintf("%s.%s%s %s %s", tn, sel.Sel.Name, extArgs, recvVal, strings.Join(args, " "))
 	ptrRecv := false
 	if _, ok := fd.Recv.List[0].Type.(*ast.StarExpr); ok {
 		ptrRecv = true
@@ -524,7 +560,11 @@ func (t *itr) evalIndices(e ast.Expr, pre *[]string) []string {
 	for _, s := range steps {
 		if s.index != nil {
 			n := t.tmp("i")
-			*pre = append(*pre, fmt.Sprintf("let %s := %s", n, t.natOf(s.index, pre)))
+			if isMapT(s.contT) {
+				*pre = append(*pre, fmt.Sprintf("let %s := %s", n, t.expr(s.index, pre)))
+			} else {
+				*pre = append(*pre, fmt.Sprintf("let %s := %s", n, t.natOf(s.index, pre)))
+			}
 			res = append(res, n)
 		}
 	}
@@ -658,6 +698,13 @@ func (t *itr) stmts(list []ast.Stmt, ind string) []string {
 			switch id.Name {
 			case "panic":
 				return append(out, ind+"none")
+			case "delete":
+				pre := []string{}
+				mv := t.expr(call.Args[0], &pre)
+				kv := t.expr(call.Args[1], &pre)
+				pre = append(pre, t.assignPath(call.Args[0], fmt.Sprintf("GoMap.delete %s %s", mv, kv), nil)...)
+				emit(pre)
+				return append(out, t.stmts(rest, ind)...)
 			case "copy":
 				pre := []string{}
 				src := t.expr(call.Args[1], &pre)
@@ -704,6 +751,39 @@ func (t *itr) stmts(list []ast.Stmt, ind string) []string {
 		}
 		if x.Tok != token.DEFINE && x.Tok != token.ASSIGN {
 			return append(out, ind+t.fail("unsupported assignment operator %s", x.Tok))
+		}
+		if len(x.Lhs) == 2 && len(x.Rhs) == 1 {
+			if ix, ok := x.Rhs[0].(*ast.IndexExpr); ok && isMapT(t.typeOf(ix.X)) && x.Tok == token.DEFINE {
+				// v, ok := m[k]
+				mv := t.expr(ix.X, &pre)
+				kv := t.expr(ix.Index, &pre)
+				f := t.tmp("f")
+				pre = append(pre, fmt.Sprintf("let %s := GoMap.find %s %s", f, mv, kv))
+				if id, ok := x.Lhs[0].(*ast.Ident); ok && id.Name != "_" {
+					pre = append(pre, fmt.Sprintf("let %s := (%s).getD default", id.Name, f))
+				}
+				if id, ok := x.Lhs[1].(*ast.Ident); ok && id.Name != "_" {
+					pre = append(pre, fmt.Sprintf("let %s := (%s).isSome", id.Name, f))
+				}
+				emit(pre)
+				return append(out, t.stmts(rest, ind)...)
+			}
+			if call, ok := x.Rhs[0].(*ast.CallExpr); ok {
+				// a, b := f(...)
+				rv := t.call(call, &pre, true)
+				for i, l := range x.Lhs {
+					id, isId := l.(*ast.Ident)
+					if !isId {
+						return append(out, ind+t.fail("unsupported assignment shape"))
+					}
+					if id.Name == "_" {
+						continue
+					}
+					pre = append(pre, fmt.Sprintf("let %s := (%s).%d", id.Name, rv, i+1))
+				}
+				emit(pre)
+				return append(out, t.stmts(rest, ind)...)
+			}
 		}
 		if len(x.Lhs) != len(x.Rhs) {
 			return append(out, ind+t.fail("unsupported assignment shape"))
@@ -771,7 +851,10 @@ func (t *itr) stmts(list []ast.Stmt, ind string) []string {
 		return append(out, ind+t.fail("unsupported range loop"))
 	case *ast.IfStmt:
 		if x.Init != nil {
-			return append(out, ind+t.fail("if with init"))
+			// the init statement's variables are fresh names here; translate it in front
+			x2 := *x
+			x2.Init = nil
+			return append(out, t.stmts(append([]ast.Stmt{x.Init, &x2}, rest...), ind)...)
 		}
 		pre := []string{}
 		cond := t.expr(x.Cond, &pre)
@@ -871,6 +954,9 @@ func (t *itr) emitFunc(sb *strings.Builder, goName string) {
 		addTP(sig.RecvTypeParams())
 		addTP(sig.TypeParams())
 	}
+	for _, e := range t.needExt[goName] {
+		params = append(params, fmt.Sprintf("(%s : %s)", e, t.externs[t.extOwner[e]]))
+	}
 	if fd.Recv != nil {
 		r := fd.Recv.List[0]
 		if _, ok := r.Type.(*ast.StarExpr); ok {
@@ -927,6 +1013,11 @@ func genPools(repo string, tiny bool) (string, []string) {
 	}
 	t := &itr{p: ecs, structs: map[string]bool{"Entity": true, "entityPool": true, "bitPool": true, "lockMask": true, "Resources": true, "bitSet": true, "idMap": true},
 		opaque: map[string]bool{"componentRegistry": true}, maskNS: mns}
+	t.externs = map[string]string{"componentRegistry.isRelation": "GoAny → Bool"}
+	t.extOwner = map[string]string{"isRelationF": "componentRegistry.isRelation"}
+	t.needExt = map[string][]string{}
+	t.opaque = map[string]bool{}
+	t.structs["componentRegistry"] = true
 	var sb strings.Builder
 	fmt.Fprintf(&sb, "/- GENERATED by /verif/extract (imperative translator) from the Go source of /repo — do not edit. -/\nimport %s\nset_option linter.unusedVariables false\nnamespace %s\nopen ArcheGen\n\n", imp, ns)
 	if o := ecs.pkg.Scope().Lookup("MaskTotalBits"); o != nil {
@@ -934,10 +1025,10 @@ func genPools(repo string, tiny bool) (string, []string) {
 			fmt.Fprintf(&sb, "def MaskTotalBits : Nat := %s\n\n", k.Val().ExactString())
 		}
 	}
-	for _, s := range []string{"Entity", "entityPool", "bitPool", "lockMask", "Resources", "bitSet", "idMap"} {
+	for _, s := range []string{"Entity", "entityPool", "bitPool", "lockMask", "componentRegistry", "Resources", "bitSet", "idMap"} {
 		t.emitStruct(&sb, s)
 	}
-	for _, f := range []string{
+	funcs := []string{
 		"newEntity", "newEntityPool", "entityPool.getNew", "entityPool.Get", "entityPool.Recycle", "entityPool.Reset",
 		"entityPool.Alive", "entityPool.Len", "entityPool.Cap", "entityPool.TotalCap", "entityPool.Available",
 		"bitPool.getNew", "bitPool.Get", "bitPool.Recycle", "bitPool.Reset",
@@ -945,7 +1036,60 @@ func genPools(repo string, tiny bool) (string, []string) {
 		"Resources.Add", "Resources.Remove", "Resources.Get", "Resources.Has", "Resources.reset",
 		"bitSet.Get", "bitSet.Set", "bitSet.Reset", "bitSet.ExtendTo",
 		"newIDMap", "idMap.Get", "idMap.Set", "idMap.Remove",
-	} {
+		"newComponentRegistry", "componentRegistry.ComponentType", "componentRegistry.Count", "componentRegistry.registerComponent",
+		"componentRegistry.ComponentID", "componentRegistry.unregisterLastComponent",
+	}
+	// which functions need the uninterpreted-function parameters (directly or through a callee)
+	calls := map[string][]string{}
+	direct := map[string]map[string]bool{}
+	for _, f := range funcs {
+		fd, ok := ecs.funcs[f]
+		if !ok {
+			continue
+		}
+		direct[f] = map[string]bool{}
+		ast.Inspect(fd.Body, func(n ast.Node) bool {
+			call, ok := n.(*ast.CallExpr)
+			if !ok {
+				return true
+			}
+			if sel, ok := call.Fun.(*ast.SelectorExpr); ok {
+				rt := t.typeOf(sel.X)
+				if p, ok := rt.(*types.Pointer); ok {
+					rt = p.Elem()
+				}
+				if nt, ok := rt.(*types.Named); ok {
+					name := nt.Obj().Name() + "." + sel.Sel.Name
+					if _, isExt := t.externs[name]; isExt {
+						direct[f][sel.Sel.Name+"F"] = true
+					} else {
+						calls[f] = append(calls[f], name)
+					}
+				}
+			}
+			return true
+		})
+	}
+	for changed := true; changed; {
+		changed = false
+		for _, f := range funcs {
+			for _, g := range calls[f] {
+				for e := range direct[g] {
+					if direct[f] != nil && !direct[f][e] {
+						direct[f][e] = true
+						changed = true
+					}
+				}
+			}
+		}
+	}
+	for _, f := range funcs {
+		for e := range direct[f] {
+			t.needExt[f] = append(t.needExt[f], e)
+		}
+		sort.Strings(t.needExt[f])
+	}
+	for _, f := range funcs {
 		t.emitFunc(&sb, f)
 	}
 	fmt.Fprintf(&sb, "end %s\n", ns)
